@@ -196,14 +196,14 @@ def raise_after_write(repo, res):
     r2 = res.rule("C18-R2", "in-place API: no raise / raising validator reachable after the target has been written", floor=20)
     arr = repo.mod(ARR)
 
-    def run(fn, targets, key, accepted_nodes=(), accepted_raisers=(), roots=None, extra_alias=None):
+    def run(fn, targets, key, accepted_nodes=(), accepted_raisers=(), roots=None, extra_alias=None, raisers=None):
         res.fn(fn)
         eff = Effects(fn, roots=roots)
         if extra_alias:
             for k, v in extra_alias.items():
                 eff.origins.setdefault(k, set()).update(v)
             eff._fix()
-        w = _RAW(fn, eff, set(targets), RAISERS, accepted_nodes, accepted_raisers)
+        w = _RAW(fn, eff, set(targets), raisers or RAISERS, accepted_nodes, accepted_raisers)
         w.run(fn.body, [0])
         if w.violations:
             node, what = w.violations[0]
@@ -249,7 +249,21 @@ def raise_after_write(repo, res):
     for r in retype:
         accepted += list(r.body)
     # also the early ==/!= return writes its *result* into out and returns (success path)
-    run(fn, {"out"}, "__array_ufunc__", accepted_nodes=accepted, roots={"self", "out", "inputs"}, extra_alias={"out_func": {"out"}, "_out": {"out"}})
+    # the unit rules refuse some operands (bit operations, roots / powers of offset temperatures, ...): a call that
+    # dispatches to them may raise.  Derived from the source: some registered rule contains a raise, or applies a
+    # Unit operator (which refuses offset units) to its argument.
+    from rules.ufunc import registry as _ufunc_rules
+
+    rule_names = {r for r, _ in _ufunc_rules(repo).values()}
+    rules_may_raise = False
+    for rn in rule_names:
+        for rf in arr.funcs.get(rn, []):
+            if any(isinstance(n, ast.Raise) for n in ast.walk(rf.node)) or any(isinstance(n, ast.BinOp) and isinstance(n.op, (ast.Pow, ast.Mult, ast.Div)) for n in ast.walk(rf.node)):
+                rules_may_raise = True
+    if not rules_may_raise:
+        raise AnalysisError("no registered unit rule can refuse its operand any more: the refusal anchors moved")
+    dispatch_raisers = {"self._ufunc_registry[ufunc]", "unit_operator", "_apply_power_mapping"}
+    run(fn, {"out"}, "__array_ufunc__", accepted_nodes=accepted, roots={"self", "out", "inputs"}, extra_alias={"out_func": {"out"}, "_out": {"out"}}, raisers=RAISERS | dispatch_raisers)
     # handlers with out= / destination
     helpers = module_helpers(repo)
     seen = set()
